@@ -11,7 +11,19 @@
     ([respec vflag]); the index keeps the flag of the last Add (open finding C02-F2).
     Search (Radix/Machine.v): [find_in false] = findNode as it is (since fix e897fef),
     [find_in true] = the pinned tree; [load] = any sequence of Add on the empty index;
-    [tree_run] / [mach_run] (C02/Reach.v) = any sequence of Add AND Delete. *)
+    [tree_run] / [mach_run] (C02/Reach.v) = any sequence of Add AND Delete.
+    Histories (C02/Model.v, C02/HistTree.v): [hop] = one AddRuleSet / UpdateRuleSet /
+    DeleteRuleSet with the implementation's acceptance and SameAs / EqualTo answers as data;
+    [hist_db ops] = the machine-level index after the history (the code as it is: delete the
+    changed rules' routes, append the new ones), [hist_tree ops] = the compressed tree after it,
+    [fresh_db ops] = a fresh load of the rule sets in force after it.  [guard_F3 hd fd path]
+    (open finding C02-F3) fires when some expression matching [path] holds other routes, or
+    the same in another order, in [hd] than in [fd]; it is used by the evaluator and by the
+    [_refuted] theorems only: no positive theorem of C02 is stated under it (that a history
+    answers like a fresh load outside the guard is C06's statement).
+    Naming: [..._refuted] = witness of an OPEN finding, about the model of the code as it is
+    now; [..._pinned_refuted] = witness of a REPAIRED finding, about the model variant before
+    the named fix commit. *)
 From HV Require Import Base.Prelude Radix.Spec Radix.SpecProofs Radix.Machine Radix.MachineProofs
   Radix.Load Radix.LoadProofs Radix.Tree Radix.TreeProofs Radix.TreeAddProofs C02.Model C02.Proofs.
 From HV Require Import C06.TreeDel C02.Reach C02.HistTree C02.ReachRepo.
@@ -20,7 +32,10 @@ From HV Require Import C06.TreeDel C02.Reach C02.HistTree C02.ReachRepo.
 
     The code of findNode / addNode is [tree_find true true true] on [tree_load adds]
     (Radix/Tree.v, transcription of tree.go after the fix: commits e897fef, 88da16a,
-    16cf34b, 20f92b3); [find_in false] on [load adds] is the pattern-map machine it refines. *)
+    16cf34b, 20f92b3); [find_in false] on [load adds] is the pattern-map machine it refines.
+    The theorems about reachable states and histories also run through C06/TreeDel.v, the
+    transcription of Delete / delNode / deleteChild after the fix: commits 2d9cd1f, 003095f,
+    f6ce52b (owner of that file and of its proofs: C06). *)
 
 (** ** the most specific matching expression selects the rule: after ANY sequence of Adds
     (any expressions, order, flags, values constraint), for any path and any conditions
@@ -73,6 +88,18 @@ Theorem C02_F3_refuted :
     find_rule false (hist_db ops) false path m <> spec_find_rule (fresh_db ops) false path m.
 Proof. exact F3_refuted. Qed.
 Print Assumptions C02_F3_refuted.
+
+(** the same witness on the compressed tree as it is now: the model tree follows the history,
+    holds exactly the machine-level content, and FindRule answers B where a fresh load of the
+    rule set in force answers A *)
+Theorem C02_F3_refuted_on_tree :
+  ts_ok (hist_tree F3_ops) = true /\
+  guard_F3 (hist_db F3_ops) (fresh_db F3_ops) (ex_str "/x") = true /\
+  proj_db (abs (ts_tree (hist_tree F3_ops))) = hist_db F3_ops /\
+  utree_find_rule (ts_tree (hist_tree F3_ops)) false (ex_str "/x") F3_any = ORule 2 /\
+  spec_find_rule (fresh_db F3_ops) false (ex_str "/x") F3_any = ORule 1.
+Proof. exact F3_refuted_on_tree. Qed.
+Print Assumptions C02_F3_refuted_on_tree.
 
 (** ** stage 2, the two refinements behind the theorems above: findNode on ANY tree
     satisfying the shape invariant [wfb] is the machine's search on the tree's content
@@ -130,7 +157,9 @@ Theorem C02_nonvacuous :
 Proof. exact nonvacuous_tree. Qed.
 Print Assumptions C02_nonvacuous.
 
-(** ** independent of the order in which rules and rule sets were loaded:
+(** ** independent of the order in which rules and rule sets were loaded (this one at the
+    level of the pattern-map machine, [find_in]; the form on the compressed tree, Deletes
+    included, is [C02_reachable_order_independent]):
     two sequences of Adds that agree, expression by expression, on the Adds of
     that expression (same values in the same order, same flags) answer every
     lookup alike — current code ([fa = false]) and pinned ([fa = true]) *)
@@ -154,6 +183,18 @@ Theorem C02_rulesets_order_independent :
     = tree_find_rule (tree_load_rulesets empty_tree sets') dflt path m.
 Proof. exact tree_rulesets_order_independent. Qed.
 Print Assumptions C02_rulesets_order_independent.
+
+(** its hypotheses are satisfiable: two rule sets accepted in both orders (by [all_accepted]
+    and the values constraint, accepted sets never share an expression), a lookup that goes
+    through expressions of both *)
+Theorem C02_rulesets_order_nonvacuous :
+  Permutation.Permutation OI_sets (rev OI_sets) /\ NoDup (map fst OI_sets) /\
+  all_accepted [] OI_sets = true /\ all_accepted [] (rev OI_sets) = true /\
+  tree_find_rule (tree_load_rulesets empty_tree OI_sets) false (ex_str "/a/b") (OI_only [3]) = ORule 3 /\
+  tree_find_rule (tree_load_rulesets empty_tree (rev OI_sets)) false (ex_str "/a/b") (OI_only [3]) = ORule 3 /\
+  tree_find_rule (tree_load_rulesets empty_tree (rev OI_sets)) false (ex_str "/a/b") (OI_only [1; 3]) = ORule 1.
+Proof. exact rulesets_order_nonvacuous. Qed.
+Print Assumptions C02_rulesets_order_nonvacuous.
 
 (** ** every state the index can reach (Adds AND Deletes)
 
@@ -275,7 +316,12 @@ Print Assumptions C02_history_nonvacuous.
 (** ** what the specification says, sentence by sentence *)
 
 (** the answer is a value of a loaded expression matching the path, acceptable,
-    and the first acceptable one in that expression's insertion order *)
+    and the first acceptable one in that expression's insertion order.  (A readback of
+    [spec_lookup]: by itself it says nothing about tree.go.  "The first one in rule-set order"
+    follows for the code only by composing it with [C02_repository_find_rule] /
+    [C02_find_is_most_specific] — the tree returns [spec_lookup]'s answer — and with the order
+    in which [ruleset_adds] issues the Adds of a rule set; after an UpdateRuleSet the insertion
+    order is no longer the rule-set order: open finding C02-F3.) *)
 Theorem C02_answer_is_first_acceptable :
   forall (V : Type) (m : matcher V) (d : db V) (path : str) (v : V) (ks caps : list str),
     Forall (fun q => wf_pat q = true) (map fst d) ->
